@@ -145,6 +145,22 @@ func registerCore(e *Engine) {
 		}
 		return tuple{(*value)(nil), (*value)(nil)}
 	})
+	// verifDeepEq(a, b): structural equality of two values of the same static
+	// type as one boolean term (no forking).
+	e.Register("verif:verifDeepEq", func(fr *frame, args []value) value {
+		x, y := args[0].(iface), args[1].(iface)
+		if x.t == nil || y.t == nil {
+			return x.t == nil && y.t == nil
+		}
+		if !types.Identical(x.t, y.t) {
+			return false
+		}
+		t := eqDeep(fr.i, x.t, x.v, y.v)
+		if t.IsConst() {
+			return t.B
+		}
+		return symBool{t}
+	})
 	// verifSymbolic reports whether the harness runs under the engine.
 	e.Register("verif:verifSymbolic", func(fr *frame, args []value) value { return true })
 	// verifIsConcrete... debugging aid
